@@ -60,6 +60,8 @@ func drawTG(t *rapid.T, fams []string, maxAll int, nSent int) *TGCase {
 		name = "separators/" + n
 	case "nullable":
 		s = spec.Nullable(t)
+	case "samehandle":
+		s = spec.SameHandle(t)
 	case "prec":
 		s = spec.Productive(t, smallCfg)
 		spec.WithPrec(t, s)
@@ -68,6 +70,32 @@ func drawTG(t *rapid.T, fams []string, maxAll int, nSent int) *TGCase {
 		spec.WithPrec(t, s)
 	case "uniform":
 		s = spec.Uniform(t, smallCfg)
+	case "longrule":
+		// rules of every length: one or two rules with 10-14 rhs symbols
+		s = spec.Productive(t, spec.Cfg{MaxT: 4, MaxN: 3, MaxR: 5, MaxLen: 3, Lits: true})
+		nl := rapid.IntRange(1, 2).Draw(t, "nlong")
+		for i := 0; i < nl; i++ {
+			k := rapid.IntRange(10, 14).Draw(t, "longlen")
+			rhs := make([]int, k)
+			for j := range rhs {
+				if rapid.IntRange(0, 4).Draw(t, "longnt") == 0 {
+					rhs[j] = len(s.Terms) + rapid.IntRange(0, len(s.NTs)-1).Draw(t, "lnt")
+				} else {
+					rhs[j] = rapid.IntRange(0, len(s.Terms)-1).Draw(t, "lt")
+				}
+			}
+			s.Rules = append(s.Rules, spec.Rule{LHS: rapid.IntRange(0, len(s.NTs)-1).Draw(t, "longlhs"), RHS: rhs, Prec: -1})
+		}
+	case "dup":
+		// a production written twice (the first one wins), further rules after it
+		s = spec.Productive(t, smallCfg)
+		nd := rapid.IntRange(1, 2).Draw(t, "ndup")
+		for i := 0; i < nd; i++ {
+			r := s.Rules[rapid.IntRange(0, len(s.Rules)-1).Draw(t, "dup")]
+			r.RHS = append([]int{}, r.RHS...)
+			at := rapid.IntRange(0, len(s.Rules)).Draw(t, "dupat")
+			s.Rules = append(s.Rules[:at:at], append([]spec.Rule{r}, s.Rules[at:]...)...)
+		}
 	default:
 		panic("unknown tier-G family " + f)
 	}
@@ -151,6 +179,7 @@ type tgRef struct {
 	hasPrec      bool
 	class        string
 	lr1ok        bool
+	tables       *ref.LRTables // reference parser, nil unless the parse is unique (up to identical productions)
 }
 
 func refFacts(s *spec.Spec) *tgRef {
@@ -169,6 +198,11 @@ func refFacts(s *spec.Spec) *tgRef {
 		return r
 	}
 	r.lr1ok = true
+	if !r.hasPrec {
+		if tb := ref.NewLRTables(g, lr0, la); tb.Usable {
+			r.tables = tb
+		}
+	}
 	r.conflictFree = len(g.Conflicts(lr0, la)) == 0
 	if r.conflictFree {
 		r.class = g.Class(lr0, la)
@@ -412,7 +446,20 @@ func evalTG(c *Ctx, cs *TGCase, vr map[string]*gen.VRes, props map[string]bool) 
 			}
 			// ---- C07
 			if r.Verdict == "accept" && !unk {
-				if tree, err := rf.g.BuildTree(r.Trace, w); err == nil {
+				// the tree: from the reference parser when the parse is unique,
+				// otherwise from the (C01-validated) reductions of the run itself
+				var tree *ref.Tree
+				src := "the reductions performed"
+				if rf.tables != nil {
+					if reds, ok := rf.tables.Parse(w); ok {
+						tree, _ = rf.g.BuildTree(reds, w)
+						src = "the grammar's unique parse tree"
+					}
+				}
+				if tree == nil {
+					tree, _ = rf.g.BuildTree(r.Trace, w)
+				}
+				if tree != nil {
 					want := refValue(s, tree)
 					tag := s.NTs[s.Start].Tag
 					if tag != "" {
@@ -426,7 +473,7 @@ func evalTG(c *Ctx, cs *TGCase, vr map[string]*gen.VRes, props map[string]bool) 
 							ok = isf && int(gf) == want.I
 						}
 						if !ok {
-							add("C07", v.Name, in, "variant %s: value of the start symbol (field %s) for %s is %v, bottom-up evaluation of the actions over the parse tree gives %v (reductions %v)", v.Name, tag, inputNames(s, in), got, wantOf(tag, want), r.Trace)
+							add("C07", v.Name, in, "variant %s: value of the start symbol (field %s) for %s is %v, bottom-up evaluation of the actions over %s gives %v (reductions reported %v)", v.Name, tag, inputNames(s, in), got, src, wantOf(tag, want), r.Trace)
 						} else if props["C07"] && c07Nontrivial(s, tree) {
 							c.Nontrivial(Hash("C07", cs.Text, fmt.Sprint(in)))
 						}
